@@ -1,0 +1,6 @@
+//go:build !verif
+
+package decoder
+
+// no-op twin of verif_poison.go
+func verifPoisonCtx(c *RuntimeContext) {}
